@@ -26,7 +26,7 @@ NA = {
 
 CHECKS = {
  "C04": dict(
-   text="Seeded search over operation histories (reads, analysis calls on the object, mutators, settings changes, cluster operations; rejected arguments, allocation failures at the k-th array-building call inside eqsig.single and inside the back-end modules, strict floating point) on real Signal/AccSignal/Cluster objects. After every step every listed derived quantity of every object, read from a deep copy in a recorded pseudo-random order, is compared with a per-observable pristine twin; objects the step was not applied to must be exactly as they were (non-interference); a sample of states is also compared with a fresh object in a process that has executed nothing (clean-process reference). Directed sweeps enumerate reachable cache state x operation, operation x fault site, A-B-change-A settings histories and change-detection coincidences. A clean run is sampling evidence over the reported coverage, not proof; exploration is the right level because the space of histories is unbounded and this defect class shows within short histories.",
+   text="Seeded search over operation histories (reads, analysis calls on the object, mutators, settings changes, cluster operations; rejected arguments, allocation failures at the k-th array-building call inside eqsig.single and inside the back-end modules, strict floating point, also with non-finite samples and with samples at the edge of the double range so that an update in place raises after it has stored its result) on real Signal/AccSignal/Cluster objects. After every step every listed derived quantity of every object, read from a deep copy in a recorded pseudo-random order, is compared with a per-observable pristine twin; objects the step was not applied to must be exactly as they were (non-interference); a sample of states is also compared with a fresh object in a process that has executed nothing (clean-process reference). Directed sweeps enumerate reachable cache state x operation, operation x fault site, every rejected-argument form on a warm object, A-B-change-A settings histories, change-detection coincidences, the second-object route (another object's values as argument) x every mutator, and overflow-at-the-result for every in-place mutator. A clean run is sampling evidence over the reported coverage, not proof; exploration is the right level because the space of histories is unbounded and this defect class shows within short histories.",
    ref="4, 14",
    note="Trusted: NumPy/SciPy numerics, deepcopy fidelity of eqsig objects, the twin and the clean-process reference (same code, fresh object) as reference, so the verdict is history-independence and not numerical correctness. Explicit generator calls with non-default arguments have no fresh-object reference and are held to non-interference only. Fault seams are module globals rebound from /verif; no hook in /repo.",
    technique="deterministic simulation: seeded operation/fault histories with reference-twin and clean-process oracles, ddmin-minimised replay"),
@@ -36,7 +36,7 @@ CHECKS = {
    note="Trusted: the declared write sets of the operation catalogue (an analysis call writes nothing; a mutator writes only its object), byte comparison through base arrays. A result that is a view of an input is not treated as a violation. Real eqsig, NumPy and SciPy; the only stubs are pass-through fault wrappers.",
    technique="deterministic simulation: seeded caller/object histories with caller-scribble and allocation faults against an ownership-map oracle, ddmin-minimised replay"),
  "C16": dict(
-   text="Seeded search over save/overwrite/load histories on real files through wrapped open()/NumPy-opener seams, over several names of a path, with injected I/O faults (open, torn write, close, deferred write error, short write, read errors) and a forced fallback parser branch (raised before or after the primary parser has consumed its input); every load of a path whose content the file model knows must return the saved record to the format's precision through every loader entry point; a save that returns normally is acknowledged. A directed sweep walks the full matrix save entry x load entry x dt class x npts class x parser branch x preceding event. Sampling evidence over the reported coverage matrix.",
+   text="Seeded search over save/overwrite/load histories on real files through wrapped open()/NumPy-opener seams, over several names of a path, with injected I/O faults (open, torn write, close, deferred write error, short write, read errors, allocation failure inside the parser) and a forced fallback parser branch (raised before or after the primary parser has consumed its input); every load of a path whose content the file model knows must return the saved record to the format's precision through every loader entry point; a save that returns normally is acknowledged. A directed sweep walks the full matrix save entry x load entry x dt class x npts class x parser branch x preceding event; five directed runs use records of 4-8 MB whose line ends fall on every block boundary. Sampling evidence over the reported coverage matrix.",
    ref="6, 14",
    note="Trusted: the file model (last save that returned normally wins; a save that raised makes the path unknown), the host file system, printable-ASCII labels, finite samples. The only stubs are pass-through fault wrappers at the I/O seams.",
    technique="deterministic simulation: seeded file-operation histories with I/O fault injection against a file model, ddmin-minimised replay"),
